@@ -31,6 +31,12 @@ CHECKS = {
         "Trusted: Python statement semantics; premise that decoders return non-empty in-bounds hits.",
         "DESIGN.md 2.6, 3/C06",
     ),
+    "C10": (
+        "reaching-condition dominance of validators at every network.* construction site (truth tables), who-may-construct census for ip nodes, validator bodies compared with the statement, table scan of the TLD set, regex alphabets, exhaustive set denotation of the percent-normalisation guard",
+        "Decides: every domain / e-mail / url / ip node construction is dominated by its validator applied to the text that becomes the value; validators are the documented predicates; TLD table entries are upper-case LDH; pattern alphabets; exactly the RFC 3986 unreserved escapes are decoded and the rest upper-cased, labelled exactly when the text got shorter; the ip label guard. Canonical form of IPv4Address.compressed and urlsplit validation are trusted library facts.",
+        "Trusted: ipaddress, urllib.parse.urlsplit, socket.inet_aton.",
+        "DESIGN.md 3/C10",
+    ),
     "C13": (
         "provenance terms from abstract interpretation (conversion applied to a group of the match whose whole span is the node span), regex-automaton facts (group alphabets, minimum lengths, language containment/equality), guard truth table for find_base64's rejection rules, structural match of apply_xor_key/dexor",
         "Decides the structural half of exactness: which stdlib conversion is applied to exactly which delimited text and reported over exactly which span with which label; the acceptance thresholds (22 chars, multiple of 4, > 6 distinct, not pure hex/letters, slash rule; 10 same-case hex pairs; > 500 array elements) and that the documented call forms are matched as one unit; xor applies b ^ key to every byte of the parent's value with the stated key. Bit-exactness of binascii and the key xortool guesses are not decided.",
